@@ -53,7 +53,12 @@ fn eval_pair(lb: isize, ub: isize, a: &mut Acc, grid: bool) {
 
 fn solver_run(seed: u64, a_cases: &mut Vec<(isize, isize, f32, J)>, par: bool, cutoff_k: u64) {
     // family T instances: optimum may be 0, negative, or the instance infeasible
-    let inst = Arc::new(tmodel::TInst::generate(seed, tmodel::SZ_TINY, Variant::plain()));
+    let mut inst = tmodel::TInst::generate(seed, tmodel::SZ_TINY, Variant::plain());
+    // shift the initial value so that the optimum is exactly 0 (a third of the runs) or negative (another third)
+    if let Some(o) = inst.optimum() {
+        match seed % 3 { 0 => inst.v0 -= o, 1 => inst.v0 -= o + 1 + (seed / 3 % 5) as isize, _ => {} }
+    }
+    let inst = Arc::new(inst);
     let mut cfg = Cfg::seq(DdKind::Lel, false, FringeKind::Simple, WidthKind::Fixed(2));
     cfg.cutoff_k = cutoff_k;
     if par { cfg.par = Some(Par { n0: 2, n1: None, mode: ParMode::Free }); }
